@@ -99,7 +99,45 @@ func runC07(c *fw.Case) {
 		c.Obs("programs_with_the_direct_io_writer", 1)
 	}
 	_ = os.MkdirAll(dir, 0755)
-	opts, err := walOpts(dir, limit, wbuf, comp)
+	// the base path is handed over in a spelling that is valid but not necessarily in its cleaned form (trailing
+	// separator, "." segment, doubled separator, "x/../x"); the fresh replayer at the end gets another spelling
+	spell := func(how int) string {
+		parent, base := filepath.Dir(dir), filepath.Base(dir)
+		switch how % 5 {
+		case 1:
+			return dir + string(filepath.Separator)
+		case 2:
+			return parent + "/./" + base
+		case 3:
+			return parent + "//" + base
+		case 4:
+			return dir + "/../" + base
+		}
+		return dir
+	}
+	spelling, spelling2 := c.Idx%5, (c.Idx/5)%5
+	if direct {
+		spelling, spelling2 = 0, 0
+	}
+	if spelling != 0 || spelling2 != 0 {
+		c.Obs("programs_with_a_base_path_not_in_cleaned_form", 1)
+	}
+	// every 10th program shares its process with two other logs that are appended to from goroutines of their own
+	var others []*c07Other
+	if c.Idx%10 == 3 {
+		for i := 0; i < 2; i++ {
+			o := &c07Other{dir: filepath.Join(c.Dir, fmt.Sprintf("other-log-%d", i)), seed: r.Int63(), comp: r.Intn(4), done: make(chan struct{})}
+			others = append(others, o)
+			go o.run()
+		}
+		c.Obs("programs_sharing_the_process_with_two_concurrently_appended_logs", 1)
+		defer func() {
+			for _, o := range others {
+				<-o.done
+			}
+		}()
+	}
+	opts, err := walOpts(spell(spelling), limit, wbuf, comp)
 	if direct {
 		opts, err = wal.NewWriteAheadLogOptions(wal.BasePath(dir), wal.MaximumWalFileSizeBytes(limit),
 			wal.WriterFactory(func(path string) (recordio.WriterI, error) {
@@ -245,7 +283,21 @@ func runC07(c *fw.Case) {
 			return
 		}
 	}
-	rp, err := wal.NewReplayer(opts)
+	for _, o := range others {
+		<-o.done
+		if o.verdict != "" {
+			c.Violate("wal/other-log-appended-concurrently/"+o.sig, "%s: a second log of the same process (own directory, own goroutine): %s", cfg, o.verdict)
+			return
+		}
+	}
+	ropts := opts
+	if spelling2 != spelling {
+		if ropts, err = walOpts(spell(spelling2), limit, wbuf, comp); err != nil {
+			c.Violate("harness/walopts", "%v", err)
+			return
+		}
+	}
+	rp, err := wal.NewReplayer(ropts)
 	if err != nil {
 		c.Violate("wal/replayer-error", "%v", err)
 		return
@@ -275,6 +327,68 @@ func runC07(c *fw.Case) {
 	}
 	if c.Idx%300 == 0 {
 		c.Sample(map[string]any{"config": cfg, "records": len(want), "rotations": rotations, "records_over_limit": big, "last_calls": tailS(prog, 6)})
+	}
+}
+
+// c07Other is a second log of the same process: own directory, own goroutine, own appended sequence
+type c07Other struct {
+	dir     string
+	seed    int64
+	comp    int
+	done    chan struct{}
+	sig     string
+	verdict string
+}
+
+func (o *c07Other) run() {
+	defer close(o.done)
+	r := rand.New(rand.NewSource(o.seed))
+	_ = os.MkdirAll(o.dir, 0755)
+	opts, err := walOpts(o.dir, 1<<16, 4096, o.comp)
+	if err != nil {
+		o.sig, o.verdict = "options", err.Error()
+		return
+	}
+	w, err := wal.NewWriteAheadLog(opts)
+	if err != nil {
+		o.sig, o.verdict = "create-error", err.Error()
+		return
+	}
+	var want []string
+	for i := 0; i < 4000; i++ {
+		rec := gen.Payload(r, 40)
+		if i%500 == 499 {
+			err = w.AppendSync(rec)
+		} else {
+			err = w.Append(rec)
+		}
+		if err != nil {
+			o.sig, o.verdict = "append-error", fmt.Sprintf("append %d: %v", i, err)
+			_ = w.Close()
+			return
+		}
+		want = append(want, recHash(rec))
+	}
+	if err := w.Close(); err != nil {
+		o.sig, o.verdict = "close-error", err.Error()
+		return
+	}
+	rp, err := wal.NewReplayer(opts)
+	if err != nil {
+		o.sig, o.verdict = "replayer-error", err.Error()
+		return
+	}
+	var got []string
+	err = rp.Replay(func(rec []byte) error {
+		got = append(got, recHash(rec))
+		return nil
+	})
+	if err != nil {
+		o.sig, o.verdict = "replay-error", fmt.Sprintf("Replay failed after %d of %d records: %v", len(got), len(want), err)
+		return
+	}
+	if strings.Join(got, ",") != strings.Join(want, ",") {
+		o.sig, o.verdict = "replay-differs", fmt.Sprintf("replay delivered %d records, appended %d", len(got), len(want))
 	}
 }
 
